@@ -493,7 +493,7 @@ impl Group for C06Node {
         "one real Node with 2-3 channels; payment hashes from an alphabet of 3; HTLC values around the approved amounts \
          (amount, amount+fee allowance, +1 sat, 10%/11% fee) and cltv values around the cltv_delta bound; random interleavings of \
          (phase-2 and, for a third of the requests, phase-1) counterparty-commitment signing, holder-commitment validation and revocation per channel with diverging holder/counterparty \
-         views, multi-part splits over channels, add/remove, retries, approvals through the approver of vls-protocol-signer (handle_proposed_keysend / handle_proposed_invoice, PositiveApprover and now and then NegativeApprover) into add_keysend and add_invoice (real signed BOLT-11; duplicates, different invoice for the same hash, u64 extremes), \
+         views, multi-part splits over channels, add/remove, retries, approvals through the approver of vls-protocol-signer (handle_proposed_keysend / handle_proposed_invoice, PositiveApprover and now and then NegativeApprover) into add_keysend and add_invoice (real signed BOLT-11; duplicates, different invoice for the same hash, u64 extremes, approvals recorded as zero: amountless invoices and 0-msat keysends, followed by HTLCs of every size for the hash), \
          a third of the worlds under a finite hourly node-wide velocity limit (refused approvals followed by HTLCs for the hash and by retried approvals), \
          invoices ISSUED by the node itself (sign_bolt11_invoice) followed by a node-state write, a restart and an unbacked HTLC for the hash, \
          preimages, heartbeat pruning under a manual clock, restarts through the real persister; a case is non-trivial when it \
@@ -575,6 +575,9 @@ impl Group for C06Node {
             // node state was written and the node restarted, on both kinds of commitment and entry point; the issued invoice
             // is persisted with the next node-state write, pruned a day after its expiry, a different one for the hash is an error
             split(&format!("init 2|issue 2 50000000 {t} 3600 0|cpsign 0 new - 2:10000:500|issue 2 50000000 {t} 3600 0|issue 2 60000000 {t} 3600 1|issue 1 0 {t} 3600 0|restart|issue 2 50000000 {t} 3600 0|keysend 0 1000 {t}|restart|cpsign 0 new - 2:10000:500|hval 1 new 2:10000:500 - p1|cpsign 1 new - 2:10000:500 p1|hval 0 new - 2:10000:600|revoke 0|cpsign 0 new 2:10000:600 2:10000:500|heartbeat {}|restart|heartbeat {}|restart|cprevoke 0|cpsign 0 new - -|hval 0 new - -|revoke 0|heartbeat {}|cpsign 1 new - 2:10000:500", t + 90_000, t + 90_001, t + 90_002)),
+            // approvals recorded as zero: an amountless BOLT-11 invoice (through the approver and directly) and a keysend of
+            // 0 msat back no HTLC of any size, on one or several channels; covered by incoming value they are forwards
+            split(&format!("init 3|invoice 0 0 {t} 3600 0|cpsign 0 new - 0:100000:500|cpsign 1 new - 0:600:500 p1|hval 2 new 0:2000:500 -|keysend 1 0 {t}|cpsign 0 new - 1:600:500|hval 1 new 1:100000:500 - p1|invoice 2 0 {t} 3600 1 direct|cpsign 2 new - 2:200000:500|restart|cpsign 2 new - 2:200000:500|cpsign 0 new - 0:600:500|hval 0 new - 0:2000:600|revoke 0|cpsign 0 new 0:2000:600 0:2000:500|cprevoke 0|cpsign 0 new 0:2000:600 0:2223:500|invoice 0 0 {t} 3600 0|invoice 0 5000 {t} 3600 0")),
             // u64 extreme approval: a + max_routing_fee overflows
             split(&format!("init 2|keysend 0 18446744073709551615 {t}|cpsign 0 new - 0:2000:500|cpsign 1 new - -")),
         ]
@@ -611,6 +614,37 @@ impl Group for C06Node {
             let amt = *rng.pick(&[100_000_000u64, 100_000_000, 50_000_000, 2_000_000]);
             let h = rng.below(NHASH as u64);
             ops.push(approval(rng, h, amt, now));
+        }
+        if rng.chance(1, 7) {
+            // an approval recorded as ZERO (an amountless BOLT-11 invoice or a keysend of 0 msat) backs nothing beyond the
+            // routing-fee allowance: HTLCs of every size for that hash, on one and on several channels, uncovered or covered
+            let h = rng.below(NHASH as u64) as usize;
+            ops.push(approval(rng, h as u64, 0, now));
+            let parts = rng.range(1, nch as u64) as usize;
+            for k in 0..parts {
+                let c = (k + rng.below(nch as u64) as usize) % nch;
+                let v = *rng.pick(&[600u64, 2_000, 100_000, 200_000]);
+                let covered = rng.chance(1, 4);
+                let s = &mut sims[c];
+                if covered {
+                    s.h_inc.push((h, v, 600));
+                    ops.push(s.hval(c, "new"));
+                    ops.push(format!("revoke {}", c));
+                    s.cp_inc.push((h, v, 600));
+                }
+                if rng.chance(1, 2) {
+                    s.cp_out.push((h, v + if covered { *rng.pick(&[0u64, 222, 223]) } else { 0 }, 500));
+                    ops.push(format!("cprevoke {}", c));
+                    ops.push(s.cpsign(c, "new"));
+                } else {
+                    s.h_out.push((h, v, 500));
+                    ops.push(s.hval(c, "new"));
+                    ops.push(format!("revoke {}", c));
+                }
+                if s.cp_out.len() + s.cp_inc.len() > 5 || s.h_out.len() + s.h_inc.len() > 5 {
+                    *s = Sim::default();
+                }
+            }
         }
         if rng.chance(1, 4) {
             // cross-channel time-of-check/time-of-use shape (F2) with random parameters: a pending holder
@@ -739,7 +773,8 @@ impl Group for C06Node {
                         1 if extreme => u64::MAX - 222_000,
                         0 | 1 => 100_222_000,
                         2 => 1,
-                        3 | 4 => 2_000_000,
+                        3 => 0,
+                        4 => 2_000_000,
                         5 | 6 => 50_000_000,
                         7 => 200_000_000,
                         _ => 100_000_000,
@@ -952,14 +987,20 @@ fn exec_op(w: &mut World, t: &[&str], at: usize, co: &mut CaseOut) -> Option<(St
             let h = h % NHASH;
             w.clock.set(Duration::from_secs(now));
             let key = SecretKey::from_slice(&[42; 32]).unwrap();
-            let inv = InvoiceBuilder::new(Currency::BitcoinTestnet)
+            let mut b = InvoiceBuilder::new(Currency::BitcoinTestnet)
                 .description(format!("verif{}", tag))
                 .payment_hash(Sha256Hash::from_byte_array(phash(h).0))
                 .payment_secret(PaymentSecret([h as u8 + 1; 32]))
                 .duration_since_epoch(Duration::from_secs(now))
                 .expiry_time(Duration::from_secs(expiry))
-                .min_final_cltv_expiry_delta(144)
-                .amount_milli_satoshis(amt)
+                .min_final_cltv_expiry_delta(144);
+            // amount 0 = a BOLT-11 invoice WITHOUT an amount (the signer records it as approved for 0 msat)
+            if amt > 0 {
+                b = b.amount_milli_satoshis(amt);
+            } else {
+                co.tags.insert("invoice:amountless".into());
+            }
+            let inv = b
                 .build_signed(|hash| Secp256k1::new().sign_ecdsa_recoverable(hash, &key))
                 .ok()?;
             let r = if direct {
@@ -1188,14 +1229,17 @@ fn exec_op(w: &mut World, t: &[&str], at: usize, co: &mut CaseOut) -> Option<(St
             let tag: u64 = tag.parse().ok()?;
             let h = h % NHASH;
             w.clock.set(Duration::from_secs(now));
-            let raw = InvoiceBuilder::new(Currency::BitcoinTestnet)
+            let mut b = InvoiceBuilder::new(Currency::BitcoinTestnet)
                 .description(format!("issued{}", tag))
                 .payment_hash(Sha256Hash::from_byte_array(phash(h).0))
                 .payment_secret(PaymentSecret([h as u8 + 0x11; 32]))
                 .duration_since_epoch(Duration::from_secs(now))
                 .expiry_time(Duration::from_secs(expiry))
-                .min_final_cltv_expiry_delta(144)
-                .amount_milli_satoshis(amt)
+                .min_final_cltv_expiry_delta(144);
+            if amt > 0 {
+                b = b.amount_milli_satoshis(amt);
+            }
+            let raw = b
                 .build_raw()
                 .ok()?;
             let r = w.ctx.node.sign_bolt11_invoice(raw);
